@@ -57,3 +57,27 @@ package wal
 //@   props C10
 //@   ensures [reader-or-error] (result0 != nil) == (result1 == nil)
 //@ end
+
+// C10 (replay yields what was written): Wal.Write REPLACES the content of the
+// segment-metadata WAL on every flusher tick.  ftruncate does not move the file
+// offset of the descriptor, so the rewrite empties the file, seeks to the
+// start and writes the version header again; only then is the new block
+// appended — otherwise the block lands behind a hole of zeros that the reader
+// takes for a block of size 0.  Ghosts walRewound / walHeader: the descriptor
+// was rewound to offset 0; the header was written after that.
+//@ ghostdecl walRewound int
+//@ ghostdecl walHeader int
+//@ func (*Wal).truncate
+//@   props C10
+//@   requires w != nil
+//@   ghostinit ghost(0, "walRewound") == 0 && ghost(0, "walHeader") == 0
+//@   site call w.fd.Truncate #1:
+//@     assert [the-old-content-is-dropped-completely] arg1 == 0
+//@   site call w.fd.Seek #1:
+//@     assert [rewound-to-the-start] arg1 == 0 && arg2 == 0
+//@     ghostset ghost(0, "walRewound") = 1
+//@   site call w.fd.Write #1:
+//@     assert [header-written-at-the-start] ghost(0, "walRewound") == 1 && samebase(arg1, sutils.VERSION_WALFILE) && len(arg1) == len(sutils.VERSION_WALFILE)
+//@     ghostset ghost(0, "walHeader") = 1
+//@   ensures [a-successful-rewrite-starts-with-a-fresh-header] implies(result == nil, ghost(0, "walHeader") == 1)
+//@ end
